@@ -22,9 +22,9 @@ Inductive exc :=
 | EType           (* TypeError *)
 | EIndex          (* IndexError *)
 | EPGP            (* PGPError (also: every exception raised while a packet is parsed, Packet() re-raises it as PGPError) *)
-| EStopIter       (* StopIteration out of next(...) *)
+| EStopIter       (* StopIteration out of next(...) (only in the pre-repair variants of PGPKey.decrypt) *)
 | EPrim           (* a primitive refused (cryptography raised: bad key size, bad PKCS#1 padding, InvalidUnwrap, ...) *)
-| ENotEncrypted   (* PGPKey.decrypt on a message without encrypted data: warning, the INPUT object is returned *)
+| ENotEncrypted   (* PGPKey.decrypt on a message with neither session keys nor encrypted data: warning, the INPUT object is returned *)
 | EEncrypt        (* PGPEncryptionError *)
 | EAttr           (* AttributeError (only in the pre-repair variant of PGPKey.decrypt) *)
 | EUnmodelled     (* packet kinds outside this model (signatures, literal data, GNU S2K extension, ...) *)
@@ -100,10 +100,29 @@ Definition beqb (a b : bytes) : bool := eqb_bytes a b.
 Definition anon_sender : bytes :=
   [65; 110; 111; 110; 121; 109; 111; 117; 115; 32; 83; 101; 110; 100; 101; 114; 32; 32; 32; 32].
 
-(* ---------- PKCS#5 padding to a multiple of 8 (cryptography's PKCS7(64) padder / unpadder) ---------- *)
+(* ---------- PKCS#5 padding ---------- *)
+(* sender (ECDHCipherText.encrypt): cryptography's PKCS7(64) padder, to a multiple of 8 *)
 Definition pkcs5_pad (m : bytes) : bytes :=
   let n := 8 - Z.of_nat (length m) mod 8 in m ++ repeat n (Z.to_nat n).
+(* another sender (RFC 6637 section 8: "the sender MAY use 21, 13, and 5 bytes of padding for AES-128, AES-192, and AES-256,
+   respectively, to provide the same number of octets, 40 total"): pad to a chosen total.  PGPy never writes this; it reads it *)
+Definition pkcs5_pad_to (total : Z) (m : bytes) : bytes :=
+  let n := total - Z.of_nat (length m) in m ++ repeat n (Z.to_nat n).
+(* recipient (the end of ECDHCipherText.decrypt): PGPy's own lines
+     padlen = _m[-1]
+     if not 0 < padlen <= len(_m) or _m[-padlen:] != bytearray([padlen]) * padlen: raise PGPDecryptionError
+     return bytes(_m[:-padlen])
+   no bound by a block size, no condition on the length (RFC 6637 section 8 lets the sender pad up to 40 octets).
+   None = refused; the empty string (on which _m[-1] is an IndexError) is told apart by the caller, ecdh_unpad *)
 Definition pkcs5_unpad (m : bytes) : option bytes :=
+  let len := length m in
+  if (len =? 0)%nat then None else
+  let n := last m 0 in
+  if (n <? 1) || (Z.of_nat len <? n) then None else
+  if eqb_bytes (lastn (Z.to_nat n) m) (repeat n (Z.to_nat n)) then Some (firstn (len - Z.to_nat n) m) else None.
+(* the unpadder BEFORE repair 830c52d (cryptography's PKCS7(64) unpadder: multiple of 8, pad value at most 8); kept for the
+   regression theorems only *)
+Definition pkcs5_unpad_old (m : bytes) : option bytes :=
   let len := length m in
   if (len =? 0)%nat || negb (Z.of_nat len mod 8 =? 0) then None else
   let n := last m 0 in
@@ -113,8 +132,26 @@ Definition pkcs5_unpad (m : bytes) : option bytes :=
 (* ---------- PKESK "m": algorithm octet, key, 16-bit additive checksum ---------- *)
 Definition pkesk_m (alg : Z) (key : bytes) : bytes :=
   int_to_bytes alg 1 ++ key ++ int_to_bytes (sumz key mod 65536) 2.
-(* tail of PKESessionKeyV3.decrypt_sk *)
+(* tail of PKESessionKeyV3.decrypt_sk: reading the cipher id and its key length is inside
+     try: ... except (IndexError, ValueError, NotImplementedError): raise PGPDecryptionError
+   (empty m, an octet that is no SymmetricKeyAlgorithm, a cipher without a key size), and a key shorter than the key size is
+   refused together with a wrong checksum: every refusal is PGPDecryptionError *)
 Definition pkesk_open (m : bytes) : res (Z * bytes) :=
+  match m with
+  | [] => Raise EDecrypt
+  | a :: r =>
+    if negb (sym_valid a) then Raise EDecrypt else
+    match key_octets a with
+    | None => Raise EDecrypt
+    | Some n =>
+      let symkey := firstn n r in
+      let checksum := bytes_to_int (firstn 2 (skipn n r)) in
+      if negb (length symkey =? n)%nat || negb (sumz symkey mod 65536 =? checksum) then Raise EDecrypt else Ok (a, symkey)
+    end
+  end.
+(* the same BEFORE repair 774c7db (IndexError / ValueError / NotImplementedError escaped; a short key passed when its
+   checksum matched); kept for the regression theorems only *)
+Definition pkesk_open_old (m : bytes) : res (Z * bytes) :=
   match m with
   | [] => Raise EIndex
   | a :: r =>
@@ -232,12 +269,18 @@ Section Prims.
     | Some n => of_opt EPrim (ecdh_kdf (k_kdf_hash k) s n
                                 (ecdh_param (k_oid k) (k_kdf_hash k) (k_kdf_enc k) (k_fp k)))
     end.
+  (* the unpadding lines of ECDHCipherText.decrypt: _m[-1] on an empty string is an IndexError (AES key unwrap never
+     returns one), every other refusal is PGPDecryptionError *)
+  Definition ecdh_unpad (mp : bytes) : res bytes :=
+    match mp with
+    | [] => Raise EIndex
+    | _ => of_opt EDecrypt (pkcs5_unpad mp)
+    end.
   (* ECDHCipherText.decrypt *)
   Definition ecdh_decrypt_m (k : pkey) (xy c : bytes) : res bytes :=
     bind (of_opt EPrim (ecdh_shared (k_fp k) xy)) (fun s =>
     bind (ecdh_kek k s) (fun z =>
-    bind (of_opt EPrim (aes_unwrap z c)) (fun mp =>
-    of_opt EValue (pkcs5_unpad mp)))).
+    bind (of_opt EPrim (aes_unwrap z c)) ecdh_unpad)).
   (* ECDHCipherText.encrypt *)
   Definition ecdh_encrypt_ct (k : pkey) (seed m : bytes) : res pkct :=
     bind (of_opt EPrim (ecdh_gen (k_fp k) seed)) (fun vs =>
@@ -245,12 +288,25 @@ Section Prims.
     bind (of_opt EPrim (aes_wrap z (pkcs5_pad m))) (fun c =>
     Ok (CEcdh (fst vs) c)))).
 
+  (* the ECDH session-key packet of a sender that pads m to `total` octets (not PGPy's: for the independent encryptor) *)
+  Definition ecdh_encrypt_ct_to (total : Z) (k : pkey) (seed m : bytes) : res pkct :=
+    bind (of_opt EPrim (ecdh_gen (k_fp k) seed)) (fun vs =>
+    bind (ecdh_kek k (snd vs)) (fun z =>
+    bind (of_opt EPrim (aes_wrap z (pkcs5_pad_to total m))) (fun c =>
+    Ok (CEcdh (fst vs) c)))).
+
   (* ---------- PKESK v3 ---------- *)
+  (* decrypt_sk:  try: m = bytearray(self.ct.decrypt(...))  except (ValueError, InvalidUnwrap): raise PGPDecryptionError.
+     The refusals of the primitives (EPrim) are these two classes: cryptography reports bad PKCS#1 padding, a point that is
+     not on the curve, a wrapped key of a bad length as ValueError and a failed key-wrap integrity check as InvalidUnwrap
+     (the fault enumeration of C04 compares the class on every rejected input).  Other classes pass through. *)
+  Definition ct_failure (e : exc) : exc := match e with EValue | EPrim => EDecrypt | _ => e end.
+  Definition ct_guard {A} (r : res A) : res A := match r with Ok a => Ok a | Raise e => Raise (ct_failure e) end.
   Definition pkesk_decrypt_sk (k : pkey) (pkalg : Z) (ct : pkct) : res (Z * bytes) :=
     if pkalg =? 1 then
-      match ct with CRsa v => bind (rsa_decrypt_m (k_fp k) v) pkesk_open | _ => Raise EType end
+      match ct with CRsa v => bind (ct_guard (rsa_decrypt_m (k_fp k) v)) pkesk_open | _ => Raise EType end
     else if pkalg =? 18 then
-      match ct with CEcdh xy c => bind (ecdh_decrypt_m k xy c) pkesk_open | _ => Raise EType end
+      match ct with CEcdh xy c => bind (ct_guard (ecdh_decrypt_m k xy c)) pkesk_open | _ => Raise EType end
     else Raise ENotImpl.
   (* PGPKey.encrypt: new PKESK for this key, encrypt_sk (which refuses a session key whose length is not the key
      size of the cipher: the recipient slices exactly that many octets) *)
@@ -262,6 +318,15 @@ Section Prims.
       let m := pkesk_m alg sk in
       if k_alg k =? 1 then bind (rsa_encrypt_ct (k_fp k) seed m) (fun ct => Ok (PK (k_id k) 1 ct))
       else if k_alg k =? 18 then bind (ecdh_encrypt_ct k seed m) (fun ct => Ok (PK (k_id k) 18 ct))
+      else Raise ENotImpl
+    end.
+
+  Definition pkesk_encrypt_to (total : Z) (k : pkey) (seed : bytes) (alg : Z) (sk : bytes) : res esk :=
+    match key_octets alg with
+    | None => Raise ENotImpl
+    | Some n =>
+      if negb (length sk =? n)%nat then Raise EEncrypt else
+      if k_alg k =? 18 then bind (ecdh_encrypt_ct_to total k seed (pkesk_m alg sk)) (fun ct => Ok (PK (k_id k) 18 ct))
       else Raise ENotImpl
     end.
 
@@ -283,8 +348,20 @@ Section Prims.
       | a :: key => if sym_valid a then Ok (a, key) else Raise EValue
       end)
     end).
-  (* encrypt_sk generalised: `inner` is the algorithm octet put in front of the session key (PGPy: inner = symalg) *)
+  (* encrypt_sk generalised: `inner` is the algorithm octet put in front of the session key (PGPy: inner = symalg).
+     Like the public-key path it refuses a session key whose length is not the key size of the cipher it is labelled with
+     (first statement of encrypt_sk; in PGPy that cipher is self.symalg = inner) *)
   Definition skesk_encrypt_gen (symalg inner : Z) (sp : s2kspec) (pass sk : bytes) : res esk :=
+    match key_octets inner with
+    | None => Raise ENotImpl
+    | Some n =>
+      if negb (length sk =? n)%nat then Raise EEncrypt else
+      bind (s2k_derive symalg sp pass) (fun k =>
+      bind (of_opt EPrim (cfb_enc symalg k (int_to_bytes inner 1 ++ sk))) (fun c =>
+      Ok (SK symalg sp c)))
+    end.
+  (* the same BEFORE repair 29ef9ad (any length was stored); kept for the regression theorem only *)
+  Definition skesk_encrypt_gen_old (symalg inner : Z) (sp : s2kspec) (pass sk : bytes) : res esk :=
     bind (s2k_derive symalg sp pass) (fun k =>
     bind (of_opt EPrim (cfb_enc symalg k (int_to_bytes inner 1 ++ sk))) (fun c =>
     Ok (SK symalg sp c))).
@@ -326,7 +403,15 @@ Section Prims.
   Definition id_in (id : bytes) (ids : list bytes) : bool := existsb (beqb id) ids.
   Definition pk_for (k : pkey) (e : esk) : bool :=
     match e with PK id a _ => (a =? k_alg k) && beqb id (k_id k) | _ => false end.
+  (* pkesk = next((pk for pk in ... if ...), None); if pkesk is None: raise PGPError  (a session key packet names the key id
+     under another algorithm id) *)
   Definition key_decrypt_leaf (k : pkey) (es : list esk) (ct : bytes) : res bytes :=
+    match find (pk_for k) es with
+    | Some (PK _ a c) => bind (pkesk_decrypt_sk k a c) (fun ak => seipd_decrypt (fst ak) (snd ak) ct)
+    | _ => Raise EPGP
+    end.
+  (* BEFORE repair 774c7db: next(...) without a default let StopIteration out; kept for the regression theorem only *)
+  Definition key_decrypt_leaf_old (k : pkey) (es : list esk) (ct : bytes) : res bytes :=
     match find (pk_for k) es with
     | Some (PK _ a c) => bind (pkesk_decrypt_sk k a c) (fun ak => seipd_decrypt (fst ak) (snd ak) ct)
     | _ => Raise EStopIter
@@ -343,9 +428,11 @@ Section Prims.
     bind (find_pk_prefix k es) (fun ac =>
     bind (pkesk_decrypt_sk k (fst ac) (snd ac)) (fun ak => seipd_decrypt (fst ak) (snd ak) ct)).
 
+  (* without an encrypted data packet: session key packets alone are a message cut short (PGPError); only a message with
+     neither is "not encrypted" (warning, the input object is returned) *)
   Definition key_decrypt (k : fullkey) (m : emsg) : res bytes :=
     match snd m with
-    | None => Raise ENotEncrypted
+    | None => match fst m with [] => Raise ENotEncrypted | _ :: _ => Raise EPGP end
     | Some ct =>
       let ids := encrypters (fst m) in
       if id_in (k_id (fk_key k)) ids then key_decrypt_leaf (fk_key k) (fst m) ct
@@ -373,9 +460,16 @@ Section Prims.
   Definition add_recipient (alg : Z) (sk : bytes) (acc : res (list esk)) (r : recipient) : res (list esk) :=
     bind acc (fun es => bind (esk_of alg sk r) (fun e =>
       match r with RPass _ _ => Ok (e :: es) | RKey _ _ => Ok (es ++ [e]) end)).
+  (* order of the work as in the API: the first call makes its session-key packet (which refuses a session key of the wrong
+     length) and then encrypts the data; every later call adds a session-key packet only *)
   Definition encrypt_to (alg : Z) (sk iv : bytes) (rs : list recipient) (m : bytes) : res emsg :=
-    bind (seipd_encrypt alg sk iv m) (fun ct =>
-    bind (fold_left (add_recipient alg sk) rs (Ok [])) (fun es => Ok (es, Some ct))).
+    match rs with
+    | [] => bind (seipd_encrypt alg sk iv m) (fun ct => Ok ([], Some ct))
+    | r1 :: rest =>
+      bind (esk_of alg sk r1) (fun e1 =>
+      bind (seipd_encrypt alg sk iv m) (fun ct =>
+      bind (fold_left (add_recipient alg sk) rest (Ok [e1])) (fun es => Ok (es, Some ct))))
+    end.
 End Prims.
 
 (* ---------- packet bodies ---------- *)
